@@ -80,6 +80,8 @@ type c20Viol struct {
 	Case json.RawMessage `json:"case"`
 }
 
+const c20Variants = 12
+
 type c20Build struct {
 	dir        string
 	h          string // instrumented harness
@@ -87,6 +89,7 @@ type c20Build struct {
 	gen        *gen.Result
 	fresh      string
 	nEntry     int
+	freshVar   string
 	stepBudget int64
 }
 
@@ -118,6 +121,7 @@ func c20Prepare(withRace bool) (*c20Build, error) {
 	b.h = filepath.Join(dir, "c20h")
 	b.race = filepath.Join(dir, "c20race")
 	b.fresh = filepath.Join(dir, "fresh.json")
+	b.freshVar = filepath.Join(dir, "freshvar.json")
 	if _, err := os.Stat(filepath.Join(dir, "ok")); err == nil {
 		g, err := gen.Generate("/repo", filepath.Join(dir, "gen"))
 		if err == nil {
@@ -175,6 +179,35 @@ func c20Prepare(withRace bool) (*c20Build, error) {
 	}
 	fb, _ := json.Marshal(fresh)
 	os.WriteFile(b.fresh, fb, 0o644)
+	// fresh-process references on several fixture variants (for the varhist pass)
+	fv := make([][]string, b.nEntry)
+	for i := range fv {
+		fv[i] = make([]string, c20Variants)
+	}
+	for i := 0; i < b.nEntry; i++ {
+		for v := 0; v < c20Variants; v++ {
+			wg.Add(1)
+			go func(i, v int) {
+				defer wg.Done()
+				sem <- struct{}{}
+				defer func() { <-sem }()
+				out, err := exec.Command(b.h, "fresh", strconv.Itoa(i), strconv.Itoa(v)).Output()
+				if err != nil {
+					mu.Lock()
+					ferr = fmt.Errorf("fresh %d/%d: %v", i, v, err)
+					mu.Unlock()
+					return
+				}
+				fv[i][v] = strings.TrimSpace(string(out))
+			}(i, v)
+		}
+	}
+	wg.Wait()
+	if ferr != nil {
+		return nil, ferr
+	}
+	fvb, _ := json.Marshal(fv)
+	os.WriteFile(b.freshVar, fvb, 0o644)
 	os.WriteFile(filepath.Join(dir, "ok"), []byte("ok"), 0o644)
 	return b, nil
 }
@@ -219,7 +252,7 @@ func (b *c20Build) runShards(r *core.Rec, n int, mk func(shard int) []string) {
 			sem <- struct{}{}
 			defer func() { <-sem }()
 			cmd := exec.Command(b.h, mk(s)...)
-			cmd.Env = append(os.Environ(), "C20_FRESH="+b.fresh, "GOMAXPROCS=1", "C20_STEP_BUDGET="+strconv.FormatInt(b.stepBudget, 10))
+			cmd.Env = append(os.Environ(), "C20_FRESH="+b.fresh, "C20_FRESHVAR="+b.freshVar, "GOMAXPROCS=1", "C20_STEP_BUDGET="+strconv.FormatInt(b.stepBudget, 10))
 			var stderr bytes.Buffer
 			cmd.Stderr = &stderr
 			outb, err := cmd.Output()
@@ -339,6 +372,8 @@ func c20Run(c *core.Ctx) {
 	// (2) histories
 	b.runShards(r, 16, func(s int) []string { return []string{"history", strconv.Itoa(depth), strconv.Itoa(s), "16"} })
 	r.Bound("histories", fmt.Sprintf("all %d^%d call sequences", b.nEntry, depth))
+	b.runShards(r, 16, func(s int) []string { return []string{"varhist", strconv.Itoa(s), "16"} })
+	r.Bound("variant_histories", fmt.Sprintf("every entry on every ordered pair of %d fixture variants (sizes and orders differ), second call against its fresh-process result", c20Variants))
 	r.Count("distinct_package_states_reached", int64(len(c20PkgStates)))
 	r.State(int64(len(c20PkgStates)))
 	if len(c20PkgStates) == 1 {
